@@ -25,7 +25,7 @@ func init() {
 		Doc: "in every map-entry tag (raw `(n<<3)|w` or BinaryProtocol.AppendTag(n, w) with constant n) whose wire type derives from the map's key descriptor (TypeDescriptor.Key()) the field number is 1, and 2 when it derives from the value descriptor (Elem()): " +
 			"protobuf map entries are messages with key = 1, value = 2",
 		Configs:  "NP",
-		Floor:    map[string]int{"N": 8, "P": 8},
+		Floor:    map[string]int{"N": 6, "P": 6},
 		Controls: 1,
 		Run:      runMapTag,
 	})
